@@ -14,8 +14,8 @@ EXPLANATION = ('Map-equivalence of arbitrary histories and attribution of evicti
                'outcome the other candidate, both being the two components of the pair computed for this key ("never two copies"); '
                '(R11.3) in the sharded get/touch the miss/false outcome of the first candidate leads to the same operation on the '
                'second candidate, and the candidates are the two components of the key\'s pair; (R11.4) set publishes onto '
-               '(directory + key) only by a replacing rename, never by an exclusive link.')
-FLOORS = {'R11.1': 4, 'R11.2': 4, 'R11.3': 4, 'R11.4': 3}
+               '(directory + key) only by a replacing rename, never by an exclusive link; (R11.5) promotion inserts with put, never set (= R13.3).')
+FLOORS = {'R11.1': 4, 'R11.2': 4, 'R11.3': 4, 'R11.4': 3, 'R11.5': 2}
 
 
 def r11_1(ctx):
@@ -175,6 +175,14 @@ def r11_4(ctx):
     return out
 
 
+def r11_5(ctx):
+    """"latest set, else first put": promoting a read-side copy into the write cache must behave like a put (never
+    overwrite what a peer set in the meantime); shared with the Promote cells of R13.3."""
+    from rules import c13
+    return [inst('R11.5', i['key'].split('|', 1)[1], i['ok'], i['detail'], path=i.get('path') or [])
+            for i in c13.r13_3(ctx) if 'Promote' in i['key'] or 'never replaces' in i['key']]
+
+
 def run(ctx):
     from runner import collect
-    return collect(ctx, r11_1, r11_2, r11_3, r11_4)
+    return collect(ctx, r11_1, r11_2, r11_3, r11_4, r11_5)
